@@ -259,10 +259,48 @@ def test_suite_term_configs():
     return [c]
 
 
+def S_(s):
+    return ('str', tuple(ord(c) for c in s))
+
+
+CAP_A = ('Capture', S_('a'), ('none',))
+CAP_N = ('Capture', S_('b'), ('name', 'n'))
+# curated programs: token adjacency and reference contexts that neither the spine pools nor random draws reach reliably
+CURATED_TERMS = [
+    ('Concat', ('args', CAP_A, ('Backreference', ('i', 1)), S_('1'))),
+    ('Concat', ('args', CAP_A, ('Backreference', ('i', 1)), S_('0a'))),
+    ('Concat', ('args', CAP_A, ('Backreference', ('i', 1)), ('AnyDigit',))),
+    ('Concat', ('args', CAP_A, ('Backreference', ('i', 1)), ('Exactly', S_('7'), ('i', 2)))),
+    ('Enclose', ('args', S_('1x'), ('Concat', ('args', ('Group', S_('b'), False), CAP_A, ('Backreference', ('i', 1)))))),
+    ('Concat', ('args', CAP_A, ('Optional', ('Backreference', ('i', 1)), True), S_('2'))),
+    ('Concat', ('args', CAP_A, ('Exactly', ('Backreference', ('i', 1)), ('i', 2)), S_('3'))),
+    ('Concat', ('args', CAP_N, ('Backreference', ('name', 'n')), S_('n1'))),
+    ('Concat', ('args', CAP_N, ('OneOrMore', ('Backreference', ('name', 'n')), False))),
+    ('Either', ('args', ('Concat', ('args', CAP_A, ('Backreference', ('i', 1)))), S_('1'))),
+    ('Concat', ('args', ('Optional', CAP_N, True), ('Conditional', ('name', 'n'), S_('1'), S_('2')), S_('3'))),
+    ('Concat', ('args', ('Optional', CAP_N, True), ('Conditional', ('name', 'n'), ('Either', ('args', S_('x'), S_('y'))), ('Either', ('args', S_('z'), S_('w')))))),
+    ('Look', 'ahead', True, ('Concat', ('args', CAP_A, ('Backreference', ('i', 1)))), ('args', S_('1'))),
+    ('Concat', ('args', ('Token', 'Backslash'), S_('1'))),
+    ('Concat', ('args', S_('\\'), S_('1'), CAP_A)),
+    ('Concat', ('args', ('Exactly', S_('a'), ('i', 2)), S_('3'))),
+    ('Concat', ('args', ('AtLeast', S_('a'), ('i', 2), True), S_(','))),
+    ('Concat', ('args', S_('a{2'), S_('}'))),
+    ('Concat', ('args', S_('a'), S_('{2}'))),
+    ('Concat', ('args', ('Optional', S_('a'), True), S_('?'))),
+    ('Concat', ('args', ('Optional', S_('a'), True), ('Optional', S_('?'), False))),
+    ('Concat', ('args', ('Group', S_('a'), False), S_('?'), S_(':'))),
+    ('Concat', ('args', S_('('), S_('?'), S_(':a)'))),
+    ('Concat', ('args', S_('[a'), S_('-'), S_('z]'))),
+    ('Concat', ('args', ('AnyFrom', (97, 45)), S_('-'), ('AnyFrom', (122,)))),
+    ('Either', ('args', S_('a'), ('Concat', ('args', S_('|'), S_('b'))))),
+    ('Concat', ('args', ('Anchor', 'eol', S_('a')), S_('$'), ('Anchor', 'bol', S_('^')))),
+]
+
+
 def random_term_configs(tier, seed, n_quick=4000, n_thorough=60000):
     from . import randterms as RT
     n = n_quick if tier == 'quick' else n_thorough
-    terms = RT.generate(seed * 7919 + 17, n)
+    terms = CURATED_TERMS + RT.generate(seed * 7919 + 17, n)
     return [terms_config('random-programs-%d' % i, terms[i:i + 20000]) for i in range(0, len(terms), 20000)]
 
 
